@@ -30,6 +30,10 @@ const SIG_K2: &str = "rcb-k2-rounding";
 const SIG_K1C: &str = "rcb-k1c-all-left";
 const SIG_K1A: &str = "rcb-k1a-plateau";
 const SIG_K1B: &str = "rcb-k1b-heavy-left";
+/// the `max <= split_target + nearest_distance` exit fired on rounded f32 values although a point
+/// lies strictly between the split position and `max` (found by this harness; a sub-class of what
+/// would otherwise be `rcb-unbalanced-other`)
+const SIG_K2B: &str = "rcb-k2b-nopoint-rounding";
 const SIG_OTHER: &str = "rcb-unbalanced-other";
 const SIG_PREMISE: &str = "rcb-premise-violated";
 
@@ -205,6 +209,8 @@ struct NodeEval {
     below: i64,
     above: i64,
     distinct: usize,
+    /// exit `nopoint` although an item lies in `[split_pos, max)`: the test was decided by rounding
+    spurious_nopoint: bool,
 }
 
 /// `xs`, `ws`: the node's items (split axis); `order[..split]` = the low side the implementation made.
@@ -288,10 +294,14 @@ fn eval_node(
             }
         }
     };
-    NodeEval { w, wl, within_tol, brackets, k2_here, premise, below, above, distinct: m }
+    let spurious_nopoint = match rep {
+        Some(r) if r.exit == Exit::NoPoint => xs.iter().any(|&c| split_pos <= c && c < r.fmax),
+        _ => false,
+    };
+    NodeEval { w, wl, within_tol, brackets, k2_here, premise, below, above, distinct: m, spurious_nopoint }
 }
 
-fn signature(k2: bool, exit: Option<Exit>, wl: i64, w: i64) -> &'static str {
+fn signature(k2: bool, exit: Option<Exit>, wl: i64, w: i64, spurious_nopoint: bool) -> &'static str {
     if k2 {
         SIG_K2
     } else {
@@ -299,6 +309,7 @@ fn signature(k2: bool, exit: Option<Exit>, wl: i64, w: i64) -> &'static str {
             Some(Exit::AllLeft) => SIG_K1C,
             Some(Exit::Plateau) => SIG_K1A,
             Some(Exit::NoPoint) if 2 * wl >= w => SIG_K1B,
+            Some(Exit::NoPoint) if spurious_nopoint => SIG_K2B,
             _ => SIG_OTHER,
         }
     }
@@ -381,13 +392,16 @@ fn judge(ctx: &mut Ctx, nodes: &[NodeOut]) -> Vec<(String, String)> {
         if nd.k2 {
             ctx.count("node_k2_symptom_here_or_above");
         }
+        if e.spurious_nopoint {
+            ctx.count("node_nopoint_exit_decided_by_rounding");
+        }
         if !nd.boxed {
             ctx.count(if nd.k2_above { "node_box_not_containing_below_k2" } else { "node_box_not_containing_without_k2" });
         }
         if e.within_tol || e.brackets {
             continue;
         }
-        let sig = signature(nd.k2, nd.exit, e.wl, e.w);
+        let sig = signature(nd.k2, nd.exit, e.wl, e.w, e.spurious_nopoint);
         ctx.count(&format!("node_fail_{}", sig));
         let what = format!(
             "node {} (axis {}, {} items, {} distinct values) exit {}: low side weighs {} of {} \
